@@ -69,6 +69,18 @@ CHECKS = {
              "checked to be k within 1 ulp and the operations plain IEEE ones; closeness of sums under cancellation is not decided.",
         design_ref="3.8", technique="affine-form extraction and ordering truth tables over LLVM IR DAGs against model gcd-unit ratios",
         note=TRUST_I + "; " + TRUST_W, engine="I+W"),
+    "C09": dict(
+        category="proof",
+        text="Point units are modelled as (size, position of zero): library temperature units read out of the current tree, generated units "
+             "with rational scale and rational origin by construction.  Conversions (coerce_in<T>, as<T>.in) for integral reps are analysed on an "
+             "exact cell partition of the whole source range: on every cell where the true result is representable the IR's quasi-affine form "
+             "must be trunc((x*m1 + o1 - o2)/m2) with truncation only at the end, and undefined behaviour may only occur where some intermediate "
+             "really is large; floating conversions are checked as the real affine form of an at-most-4-operation IEEE chain with correctly "
+             "rounded constants.  p - p', p +- q and q + p have the exact two-variable affine form in the result unit read out of the type (origin "
+             "borrowed from the point); the six comparisons have the operator's truth table over the orderings of two atoms that are the two "
+             "positions on one common scale.  Compile-fail witnesses cover the non-affine forms named in the statement.",
+        design_ref="3.9", technique="cell analysis / affine forms / ordering truth tables over LLVM IR against an (m, o) model + compile-fail witnesses",
+        note=TRUST_I + "; " + TRUST_W, engine="I+W"),
     "C13": dict(
         category="proof",
         text="(S) AST shape rule on the primary templates au::Quantity / au::QuantityPoint - exactly one non-static data "
